@@ -120,34 +120,57 @@ fn one(wseed: u64) {
     if rng.chance(1, 2) {
         threads[2].swap(1, 2);
     }
-    println!("wseed={wseed} spec={:?}/{:?}/{:?} patterns={} threads={:?}", spec.variant, spec.kind, spec.vtype, n, threads);
+    // one short line (a long one would be written in pieces and interleave with other seeds' output)
+    println!("wseed={wseed} spec={:?}/{:?}/{:?} patterns={} ops={:?}", spec.variant, spec.kind, spec.vtype, n, threads.iter().map(|t| t.len()).collect::<Vec<_>>());
 
-    let p: Arc<Box<dyn DynPma>> = match pma::build(&spec) {
-        Ok(p) => Arc::new(p),
-        Err(e) => {
+    // The sequential part. A panic or a failing build here has nothing to do with sharing: the
+    // workload is skipped, not judged.
+    let prov = (wseed / 6) % 3; // 0 = built, 1 = clone, 2 = restored from serialised bytes
+    let seq = std::panic::catch_unwind(std::panic::AssertUnwindSafe(|| {
+        let built = pma::build(&spec)?;
+        let shared: Box<dyn DynPma> = match prov {
+            1 => built.clone_box(),
+            2 => built.roundtrip(&[]).0,
+            _ => built,
+        };
+        // reference results come from a SECOND automaton built from the same input, so that the
+        // shared one is still untouched ("first use" is part of the history)
+        let reference = pma::build(&spec)?;
+        let image = reference.serialize();
+        let mut want: std::collections::HashMap<(Method, usize, bool), Vec<Mt>> = Default::default();
+        for th in &threads {
+            for op in th {
+                if let Op::Search { method, hay, iter } = op {
+                    // the single-threaded result of the same entry point
+                    want.entry((*method, *hay, *iter)).or_insert_with(|| {
+                        if *iter {
+                            reference.open_iter(*method, Box::new(hays[*hay].to_vec().into_iter())).collect()
+                        } else {
+                            pma::search(&*reference, *method, &hays[*hay])
+                        }
+                    });
+                }
+            }
+        }
+        let same_image = shared.serialize() == image;
+        Ok::<_, String>((shared, image, want, same_image))
+    }));
+    let (p, image, want) = match seq {
+        Ok(Ok((shared, image, want, same_image))) => {
+            if !same_image {
+                violation("build-differs", wseed, "two builds from the same input (one possibly cloned / restored) serialise differently".into());
+            }
+            (Arc::new(shared), image, want)
+        }
+        Ok(Err(e)) => {
             println!("wseed={wseed}: build error {e} (skipped)");
             return;
         }
-    };
-    // The single-threaded reference results come from a *second* automaton built from the same
-    // input, so that the shared one is still untouched ("first use" is part of the history: a
-    // lazily initialised cache would otherwise be warmed up before the threads start).
-    let reference = match pma::build(&spec) {
-        Ok(q) => q,
-        Err(e) => violation("build-differs", wseed, format!("second build failed: {e}")),
-    };
-    let image = reference.serialize();
-    let mut want: std::collections::HashMap<(Method, usize), Vec<Mt>> = Default::default();
-    for th in &threads {
-        for op in th {
-            if let Op::Search { method, hay, .. } = op {
-                want.entry((*method, *hay)).or_insert_with(|| pma::search(&*reference, *method, &hays[*hay]));
-            }
+        Err(_) => {
+            println!("wseed={wseed}: the sequential reference run panicked (skipped, not judged)");
+            return;
         }
-    }
-    if p.serialize() != image {
-        violation("build-differs", wseed, "two builds from the same input serialise differently".into());
-    }
+    };
     let spec = Arc::new(spec);
     let want = Arc::new(want);
     let image = Arc::new(image);
@@ -164,8 +187,8 @@ fn one(wseed: u64) {
                         } else {
                             p.open_slice(*method, Hay { bytes: hays[*hay].clone(), hook }).collect()
                         };
-                        if got != want[&(*method, *hay)] {
-                            violation("search-differs", wseed, format!("thread {t} op {i}: {:?} got {:?} want {:?}", method, got, want[&(*method, *hay)]));
+                        if got != want[&(*method, *hay, *iter)] {
+                            violation("search-differs", wseed, format!("thread {t} op {i}: {:?} got {:?} want {:?}", method, got, want[&(*method, *hay, *iter)]));
                         }
                     }
                     Op::Serialize => {
